@@ -186,6 +186,8 @@ def descriptors() -> dict[str, NodeV]:
     d["SHOW TERSE OBJECTS IN DATABASE"] = node("Show", "stmt", this=Const("OBJECTS"), terse=Const(True),
                                                scope=table("D"), scope_kind=Const("DATABASE"))
     d["SHOW SCHEMAS"] = node("Show", "stmt", this=Const("SCHEMAS"), terse=Const(False))
+    d["SHOW SCHEMAS IN DATABASE"] = node("Show", "stmt", this=Const("SCHEMAS"), terse=Const(False),
+                                         scope=table("D"), scope_kind=Const("DATABASE"))
     d["SHOW PRIMARY KEYS"] = node("Show", "stmt", this=Const("PRIMARY KEYS"), terse=Const(False))
     d["SHOW PRIMARY KEYS IN TABLE"] = node("Show", "stmt", this=Const("PRIMARY KEYS"), terse=Const(False),
                                            scope=table("T"), scope_kind=Const("TABLE"))
@@ -202,6 +204,9 @@ def descriptors() -> dict[str, NodeV]:
     d["CALL (Command)"] = node("Command", "stmt", this=Const("CALL"), expression=lit("p()"))
     d["CREATE USER (Command)"] = node("Command", "stmt", this=Const("CREATE"), expression=Const("USER u1"))
     d["GRANT"] = node("Grant", "stmt", securable=table("T"))
+    # select upper(?), ? — two server-side placeholders at different depths of the tree
+    d["SELECT placeholders"] = node("Select", "stmt", expressions=Lst([
+        node("Upper", this=NodeV("Placeholder", {}, name="ph1", open=False)), NodeV("Placeholder", {}, name="ph2", open=False)]))
     return d
 
 
@@ -524,7 +529,8 @@ class FullHooks(ExecHooks):
         if d in ("sqlglot.parse_one",) and isinstance(kwargs.get("read"), Const) and kwargs["read"].v == "snowflake":
             self.parsed += 1
             I.effect("parse-user", args[0] if args else None, site)
-            return descriptor(self.kind)
+            self.stmt = descriptor(self.kind)
+            return self.stmt
         if d in ("re.match", "re.search", "re.fullmatch") and self.nop_match is not None and not (I.callstack and "variables" in I.callstack[-1]):
             self.nop_calls.append((d, args, kwargs, site))
             I.effect("call", d, args, kwargs, site)
